@@ -124,6 +124,8 @@ void roundCase(Ctx& c, long idx)
         c.counters["max_threads_simultaneously_inside_library"] = static_cast<uint64_t>(overlap);
     if (overlap >= T / 2)
         c.count("rounds_with_at_least_half_the_threads_overlapping");
+    if (overlap >= 2)
+        c.count("rounds_with_overlapping_threads");
     c.sample("round " + std::to_string(idx) + ": " + std::to_string(T) + " threads x " + std::to_string(steps) + " workload steps, max " + std::to_string(overlap) + " threads inside the library at once", 3);
 }
 
